@@ -136,7 +136,7 @@ class C13(Check):
                    'the gap); slow-poll bound is 3 x slowinterval + (number of polled parameters + 1) x sweep',
                    'pre-emption at lock operations, plus line events of frappy/modulebase.py in a third of the runs']
     PROBES = ('c13.failing-poll', 'c13.interval-change', 'c13.fast-poll', 'c13.trigger', 'clock.jump',
-              'c13.comfail-at-startup')
+              'c13.comfail-at-startup', 'c13.back-to-back-requests')
 
     def gen_case(self, rng, tier):
         nmod = rng.choice([1, 2, 2, 3, 4])
@@ -189,6 +189,11 @@ class C13(Check):
                 op['v'] = rng.choice([0.25, 0.1, 1.0])
             elif kind == 'jump':
                 op['v'] = rng.choice([0.5, 7.0, 90.0, 3700.0])
+            if kind in ('interval', 'trigger', 'fast_off') and rng.random() < 0.4:
+                # a second request at the same instant: it arrives while the poll thread, woken by the first one,
+                # is working out how long to sleep
+                op['then'] = rng.choice([{'kind': 'interval', 'v': rng.choice([0.1, 0.3, 1.0])},
+                                         {'kind': 'fast_on', 'v': rng.choice([0.1, 0.25])}])
             ops.append(op)
         shape = {'p_switch': rng.choice([0.05, 0.2, 0.5]),
                  'line_gaps': rng.choice([0, 0, 10, 14]),
@@ -224,12 +229,20 @@ class C13(Check):
         mods = [srv.secnode.modules[s['name']] for s in shape['mods']]
         owner = srv.secnode.modules['io'] if shared else None
         t0 = sim.vnow()
+        todo = []
         for op in case['ops']:
+            todo.append(op)
+            if op.get('then'):
+                todo.append(dict(op['then'], t=op['t'], m=op['m'], second=True))
+        for op in todo:
             if op['m'] >= len(mods):
                 continue
             dt = t0 + op['t'] - sim.vnow()
             if dt > 0:
                 time.sleep(dt)
+            elif op.get('second'):
+                sim.count('c13.back-to-back-requests')
+                sim.yield_point()
             mod = mods[op['m']]
             kind = op['kind']
             t_before = sim.vnow()
